@@ -901,6 +901,14 @@ func (s *Store) Stepdown(wait bool, id string) error {
 		return ErrNotOpen
 	}
 
+	// Only the Leader can step down. Say so up front, so that the caller can
+	// forward the request to the Leader, rather than reporting success without
+	// anything having happened (when not waiting), or failing with an error
+	// which hides that this node is simply not the Leader.
+	if s.raft.State() != raft.Leader {
+		return ErrNotLeader
+	}
+
 	if lid, err := s.LeaderID(); id != "" && err == nil && lid == id {
 		return fmt.Errorf("cannot step down to the current Leader")
 	}
